@@ -114,7 +114,7 @@ deriving Repr, DecidableEq
 structure Sys where
   rep : Nat → Rep := fun _ => {}
 
-def Sys.set (s : Sys) (r : Nat) (x : Rep) : Sys := ⟨upd s.rep r x⟩
+@[noinline] def Sys.set (s : Sys) (r : Nat) (x : Rep) : Sys := ⟨upd s.rep r x⟩
 
 def Sys.step (s : Sys) : COp → Sys
   | .inc r k => if k = 0 then s else s.set r { s.rep r with pn := (s.rep r).pn.inc r k }
